@@ -257,10 +257,32 @@ class Builder(object):
         self.all_types.append(td)
         return True
 
+    def anonymous_bits_field(self, sdef, file, depth, pos):
+        """`pos [+1] bits:` with members: each member's name is ALSO a name of the enclosing
+        structure (the compiler adds an alias there), so it can collide with fields of the structure."""
+        r = self.rnd
+        sc = sdef.own
+        self.emit(file, "  " * depth + "%d [+1]  bits:" % pos)
+        off = 0
+        for i in range(r.choice([1, 2])):
+            name = self.pick_name(FIELD_POOL, sc, allow_dup=0.15)
+            f = Def("field", name, sc)
+            f.line = self.emit(file, "  " * (depth + 1) + "%d [+%d]  UInt  %s" % (off, 3, name))
+            f.ftype = None
+            off += 3
+            sc.defs.append(f)
+            # the member's type is a reference like any other (ambiguous when a user type shadows UInt)
+            ref = Ref("type", ["UInt"], sc, f.line, name)
+            ref.no_binding_check = True  # the name in the structure is an alias; the typed member sits in the reserved anonymous type
+            self.refs.append(ref)
+        return True
+
     def field(self, sdef, file, depth, pos):
         r = self.rnd
         sc = sdef.own
         if r.random() < 0.12 and self.inline_enum_field(sdef, file, depth, pos):
+            return
+        if r.random() < 0.1 and self.anonymous_bits_field(sdef, file, depth, pos):
             return
         name = self.pick_name(FIELD_POOL, sc, allow_dup=0.03)
         f = Def("field", name, sc)
